@@ -102,7 +102,7 @@ func (m *Manager) connect(recursed bool) (err error) {
 
 	_eio, err := eio.Dial(m.url, &callbacks, &m.eioConfig)
 	if err != nil {
-		m.resetParser()
+		m.cleanup()
 		m.stateMu.Lock()
 		m.state = clientConnStateDisconnected
 		m.stateMu.Unlock()
@@ -120,7 +120,7 @@ func (m *Manager) connect(recursed bool) (err error) {
 		active = false
 		activeMu.Unlock()
 		go _eio.Close()
-		m.resetParser()
+		m.cleanup()
 		return errManagerClosed
 	}
 
